@@ -191,6 +191,13 @@ def make_xclient(world: Any, k: int, opts: dict) -> XClient:
 class PacedScriptApp(ScriptApp):
     """ScriptApp + ('recv_body_gated', gate): wait on `gate` before *every* receive() until the body ended."""
 
+    async def _recv(self, inst: Any, receive: Callable) -> dict:
+        m = await super()._recv(inst, receive)
+        w = self.world
+        if not w.finished:  # when, relative to the environment's events, the message reached the application
+            inst.log.append((w.now(), "recv-at", tuple(w.driver.pos)))
+        return m
+
     async def _run(self, inst: Any, program: list, receive: Callable, send: Callable) -> None:
         for pc, op in enumerate(program):
             if op[0] == "recv_body_gated":
